@@ -208,6 +208,17 @@ func c20Common(lang string, code string) Sx {
 		_ = os.WriteFile(filepath.Join(src, ".gitignore"), []byte("*_gen.go\n*_gen.py\n"), 0o644)
 		_ = os.WriteFile(filepath.Join(src, genName), []byte(gen), 0o644)
 	}
+	if len(code)%3 == 0 {
+		// every third tree: a second source of the SAME base name in another directory that declares nothing (a package
+		// clause only / a comment only): each file is analysed under its own path
+		other := filepath.Join(dir, "src", "zz_other")
+		os.MkdirAll(other, 0o755)
+		empty := "package zzother\n"
+		if lang == "py" {
+			empty = "# nothing here\n"
+		}
+		_ = os.WriteFile(filepath.Join(other, name), []byte(empty), 0o644)
+	}
 	wd, _ := os.Getwd()
 	if err := os.Chdir(dir); err != nil {
 		return L(A("!ERR"), A(err.Error()))
